@@ -1675,7 +1675,10 @@ class HasTraits(CHasTraits, metaclass=MetaHasTraits):
         memo[id(self)] = new
         new._init_trait_listeners()
         new._init_trait_observers()
-        new.copy_traits(self, traits, memo, copy, **metadata)
+        # An empty list means "nothing is copyable" here: copy_traits would
+        # read it as "all traits".
+        if len(traits) > 0:
+            new.copy_traits(self, traits, memo, copy, **metadata)
         new._post_init_trait_listeners()
         new._post_init_trait_observers()
         new.traits_init()
